@@ -98,3 +98,17 @@ Qed.
 Corollary gen_fb_build_fields : forall rsize ralign args L, exec_fb fb_build_prog rsize ralign args = Some L ->
   L = fb_build rsize ralign args.
 Proof. intros ? ? ? L H. rewrite gen_fb_build_is_model in H. congruence. Qed.
+
+(* ---- the generated wrapper's in-band error values (regenerated: C13.Gen.api_sentinel_prim / _fnptr) are the ones the
+   model's sentinel tests use, and an API-mode variadic function is a function-pointer cdata (so that its calls are
+   cdata_call's, as the model and the harness assume).  All by computation: a different errvalue in recompiler.py
+   makes the two sides differ. *)
+Lemma api_sentinels :
+  (forall size r, wrapper_check size r = wrapper_check_s size api_sentinel_prim r) /\
+  (forall x, api_conv FnPtr x =
+             match conv_fnptr x with
+             | CErr e => match wrapper_check_s 8 api_sentinel_fnptr (err api_sentinel_fnptr e) with COk _ => CBad | o => o end
+             | o => o
+             end) /\
+  api_variadic_is_cdata = true.
+Proof. split; [| split]; [intros; reflexivity | intros; reflexivity | reflexivity]. Qed.
